@@ -1987,6 +1987,21 @@ impl RouteResult {
     }
 }
 
+/// verification hook (`--cfg sozu_verif`): public wrapper that *calls* the private
+/// selection kernel so out-of-tree solver harnesses can reach it. No logic here.
+#[cfg(sozu_verif)]
+pub mod verif {
+    use super::{Method, MethodRule, PathRule, Route};
+
+    pub fn select_tree_rule<'a>(
+        path_rules: &'a [(PathRule, MethodRule, Route)],
+        path: &[u8],
+        method: &Method,
+    ) -> Option<(&'a PathRule, &'a Route)> {
+        super::select_tree_rule(path_rules, path, method)
+    }
+}
+
 #[cfg(test)]
 mod tests {
     use super::*;
